@@ -53,7 +53,16 @@ def option_grid(rng, tier):
     combos = list(itertools.product(*[grid[k] for k in keys]))
     rng.shuffle(combos)
     n = 40 if tier == "quick" else 400
-    return [dict(zip(keys, c)) for c in combos[:n]]
+    out = []
+    for c in combos[:n]:
+        o = dict(zip(keys, c))
+        # rarely-set fields get non-default values too
+        o.update(adaptive_window=rng.choice([3, 10, 17]), max_solve_retries=rng.choice([2, 10, 13]),
+                 adaptive_time_step_multiplier=rng.choice([0.25, 0.5, 0.3]), monitor_update_interval=rng.choice([2.0, 0.5]),
+                 max_iterations_per_step=rng.choice([1000, 777]), screening_step_size=rng.choice([0.1, 0.6, 1.0]),
+                 screening_step_drag=rng.choice([0.5, 0.8, 1.0]))
+        out.append(o)
+    return out
 
 
 def _eps(r):
@@ -98,8 +107,8 @@ def run(rep: common.Report, tier: str, seed: int, replay=None) -> int:
             except Exception as e:  # noqa: BLE001
                 rep.violation(f"saving / loading a solution raised {type(e).__name__}: {e}"[:200], case)
                 continue
-            for f in ("terminal_psi", "output_file", "adaptive", "save_every", "include_screening", "skip_time", "field_units",
-                      "current_units", "pause_on_interrupt", "dt_init", "dt_max", "solve_time", "sparse_solver"):
+            import dataclasses
+            for f in [fld.name for fld in dataclasses.fields(sol.options)]:
                 a, b = getattr(sol.options, f), getattr(loaded.options, f)
                 if not (a == b and (a is None) == (b is None)):
                     rep.violation(f"option {f} changed through save/load: {a!r} -> {b!r}", case)
